@@ -266,5 +266,20 @@ def run(ctx: Ctx) -> None:
                 ctx.count("C14.frame_config_targets_checked")
                 ctx.check(len(got_f) == len(exp_f) and all(a is b for a, b in zip(got_f, exp_f)), "C14/config_target_labels_differ_from_object_labels", dict(config=who, merge=merge, names=names_f, got=[str(x) for x in got_f], expected=[str(x) for x in exp_f]), "set_target_lists")
             ctx.case(("config", merge, len(names)), nontrivial=True)
+        # ---- the sensing configuration builds its converter from the same options: merging requested = merging done
+        from perception_eval.config import SensingEvaluationConfig
+
+        for merge in (False, True):
+            ctx.begin_case("sensing_config", int(merge), merge=merge)
+            with ctx.case_guard("sensing_config"):
+                scfg = SensingEvaluationConfig(dataset_paths=[], frame_id="base_link", result_root_directory=scratch_dir(), evaluation_config_dict={"evaluation_task": "sensing", "label_prefix": "autoware", "merge_similar_labels": merge, "box_scale_0m": 1.0, "box_scale_100m": 1.0, "min_points_threshold": 1})
+                for n, lab_value in sorted(DOC_NAME2LABEL.items()):
+                    for spelled in (n, n.upper()):
+                        want = merged(AutowareLabel(lab_value)) if merge else AutowareLabel(lab_value)
+                        got = scfg.label_converter.convert_label(spelled).label
+                        got_n = scfg.label_converter.convert_name(spelled)
+                        ctx.count("C14.sensing_config_names_checked")
+                        ctx.check(got is want and got_n is want, "C14/registered_name_not_documented_label", dict(config="SensingEvaluationConfig", merge=merge, name=spelled, got=[str(got), str(got_n)], expected=str(want)), "convert_label")
+                ctx.case(("sensing_config", merge), nontrivial=True)
         ctx.exhaustive["registered_names_x_tasks_x_merge_x_case_variants"] = not ctx.inconclusive
         ctx.notes["taps"] = taps.installed
